@@ -1389,6 +1389,140 @@ theorem runToks_Rn (hvt : VtLossless vt) (m : List Bytes) (p1 a : Bytes) (rest :
   simp [endHtml, stX, stG]
 
 
+/-! ### glue: the chain model fed the whole document as one chunk -/
+
+/-- one html stage processes the whole input `x` in one `filter` call, emits `y` and holds nothing afterwards -/
+structure StageOK (v : Visitor) (x y : Bytes) : Prop where
+  utf8 : utf8Split x = some (x, [])
+  rest : (tk x).2 = []
+  noHeld : splitHeld (tk x).1 = ((tk x).1, [])
+  run : ∃ s, (tk x).1.foldl (stepTok tk ev) (HtmlSt.new v, []) = (s, y) ∧ s.stack = []
+
+/-- a stage that holds nothing: `end()` returns nothing -/
+def CleanStage (st : Stage Unit Unit) : Prop :=
+  match st with
+  | .html s => endHtml s = []
+  | _ => False
+
+theorem stage_filter_ok {v : Visitor} {x y : Bytes} (h : StageOK tk ev v x y) :
+    ∃ s', filterHtml tk ev (HtmlSt.new v) x = some (s', y) ∧ endHtml s' = [] := by
+  obtain ⟨s, hrun, hst⟩ := h.run
+  refine ⟨{ s with last := [] }, ?_, ?_⟩
+  · unfold filterHtml
+    have hl : (HtmlSt.new v).last = [] := rfl
+    rw [hl, List.nil_append, h.utf8]
+    simp only
+    have hr := h.rest
+    have hh := h.noHeld
+    generalize htk : tk x = r at hr hh hrun
+    obtain ⟨ts, rest⟩ := r
+    simp only at hr hh hrun
+    subst hr
+    simp only [hh, hrun, List.append_nil]
+  · simp [endHtml, hst]
+
+/-- the stages of a list of visitors -/
+def stagesOf (vs : List Visitor) : List (Stage Unit Unit) := vs.map fun v => .html (HtmlSt.new v)
+
+/-- the visitors process `x` one after the other, every stage in one call, ending with `y` -/
+def Chained : List Visitor → Bytes → Bytes → Prop
+  | [], x, y => x = y
+  | v :: vs, x, y => ∃ z, StageOK tk ev v x z ∧ (vs ≠ [] → z ≠ []) ∧ Chained vs z y
+
+theorem cleanStage_new (v : Visitor) : CleanStage (.html (HtmlSt.new v)) := by
+  simp [CleanStage, endHtml, HtmlSt.new]
+
+theorem doFilter_chained : ∀ (vs : List Visitor) (x y : Bytes), Chained tk ev vs x y →
+    ∃ items', doFilter tk ev noCodec (stagesOf vs) x = (items', some y) ∧ ∀ st ∈ items', CleanStage st
+  | [], x, y, h => by
+    simp only [Chained] at h
+    subst h
+    exact ⟨[], by simp [stagesOf, doFilter], fun _ h => by cases h⟩
+  | v :: vs, x, y, h => by
+    obtain ⟨z, hok, hne, hch⟩ := h
+    obtain ⟨s', hf, hclean⟩ := stage_filter_ok tk ev hok
+    have hstage : Stage.filter tk ev noCodec (Stage.html (HtmlSt.new v) : Stage Unit Unit) x =
+        some (.html s', z) := by simp [Stage.filter, hf]
+    cases vs with
+    | nil =>
+      simp only [Chained] at hch
+      subst hch
+      refine ⟨[.html s'], ?_, ?_⟩
+      · simp only [stagesOf, List.map_cons, List.map_nil, doFilter, hstage]
+        cases z <;> simp [doFilter]
+      · intro st hst; simp at hst; subst hst; exact hclean
+    | cons w ws =>
+      have hz : z ≠ [] := hne (by simp)
+      obtain ⟨items', hd, hcl⟩ := doFilter_chained (w :: ws) z y hch
+      refine ⟨.html s' :: items', ?_, ?_⟩
+      · have : z.isEmpty = false := by cases z <;> simp_all
+        simp only [stagesOf, List.map_cons] at hd ⊢
+        rw [doFilter]
+        simp only [hstage, this, Bool.false_eq_true, if_false]
+        rw [hd]
+      · intro st hst
+        rcases List.mem_cons.mp hst with e | e
+        · subst e; exact hclean
+        · exact hcl st e
+
+theorem doEnd_clean : ∀ (items : List (Stage Unit Unit)), (∀ st ∈ items, CleanStage st) →
+    doEnd tk ev noCodec items none = (items, .ok none)
+  | [], _ => by simp [doEnd]
+  | st :: rest, h => by
+    have hst := h st (by simp)
+    cases st with
+    | html s =>
+      simp only [CleanStage] at hst
+      have : Stage.endWith tk ev noCodec (Stage.html s : Stage Unit Unit) none = (.html s, some []) := by
+        simp [Stage.endWith, Stage.end, hst]
+      simp only [doEnd, this, List.isEmpty_nil, if_true,
+        doEnd_clean rest (fun x hx => h x (List.mem_cons_of_mem _ hx))]
+    | text _ => simp [CleanStage] at hst
+    | decode _ => simp [CleanStage] at hst
+    | encode _ => simp [CleanStage] at hst
+
+/-- **the chain model, fed the whole document as one chunk, emits what the stages emit one after the other** -/
+theorem chain_run_chained (vs : List Visitor) (x y : Bytes) (h : Chained tk ev vs x y) :
+    (({ items := stagesOf vs } : Chain Unit Unit).run tk ev noCodec [x]) = y := by
+  obtain ⟨items', hd, hcl⟩ := doFilter_chained tk ev vs x y h
+  simp only [Chain.run, Chain.runOuts, Chain.feed, Chain.filter, Bool.false_eq_true, if_false, hd,
+    Chain.end, doEnd_clean tk ev items' hcl]
+  simp
+
+/-- the visitors of a list of html filters -/
+def VisitorsOf : List BodyFilter → List Visitor → Prop
+  | [], [] => True
+  | f :: fs, v :: vs => (∃ a p s c, f = BodyFilter.html a p s c ∧ Visitor.new a p s c = some v) ∧ VisitorsOf fs vs
+  | _, _ => False
+
+/-- `FilterBodyAction::new` without headers on html filters whose visitors exist -/
+theorem chain_new_html (lower : String → String) :
+    ∀ (fs : List BodyFilter) (vs : List Visitor), VisitorsOf fs vs →
+      (Chain.new noCodec lower fs [] : Chain Unit Unit) = { items := stagesOf vs } := by
+  intro fs vs h
+  have hfm : ∀ (fs : List BodyFilter) (vs : List Visitor), VisitorsOf fs vs →
+      (fs.filterMap fun f => (Stage.new f none : Option (Stage Unit Unit))) = stagesOf vs := by
+    intro fs
+    induction fs with
+    | nil => intro vs h; cases vs with
+      | nil => rfl
+      | cons _ _ => simp [VisitorsOf] at h
+    | cons f fs ih =>
+      intro vs h
+      cases vs with
+      | nil => simp [VisitorsOf] at h
+      | cons v vs =>
+        obtain ⟨⟨a, p, s', c, rfl, hv⟩, hrest⟩ := h
+        have := ih vs hrest
+        have h1 : (Stage.new (BodyFilter.html a p s' c) none : Option (Stage Unit Unit)) =
+            some (.html (HtmlSt.new v)) := by
+          simp [Stage.new, htmlAllowed, hv]
+        rw [List.filterMap_cons, h1]
+        simp only [this, stagesOf, List.map_cons]
+  unfold Chain.new
+  simp only [headerValue, List.foldl_nil, hfm fs vs h]
+  split <;> rfl
+
 end
 
 end Rio.Filter
